@@ -577,7 +577,17 @@ impl<'a, 'b> BodyGen<'a, 'b> {
                 _ => {
                     if self.loop_depth > 0 && self.cfg.structured && self.avail.jmp && self.tape.chance(1, 2) {
                         let c = self.cond(1);
-                        out.push(Stmt::If { arms: vec![(false, c, vec![Stmt::Break.into()])], els: None }.into());
+                        // three spellings: `if (c) { break; }`, the conditional-jump statement `if (c) break;` / `unless (c) break;`,
+                        // and an if/else whose first arm ends in a bare `break;`
+                        match self.tape.below(4) {
+                            0 | 1 => out.push(Stmt::If { arms: vec![(false, c, vec![Stmt::Break.into()])], els: None }.into()),
+                            2 => out.push(Stmt::CondGoto { unless: self.tape.chance(1, 3), cond: c, label: COND_BREAK.into(), time: None }.into()),
+                            _ => {
+                                let mut arm = vec![]; if self.tape.bool() { let k = self.call(); arm.push(k.into()); } arm.push(Stmt::Break.into());
+                                let els = if self.tape.bool() { let k = self.call(); Some(vec![k.into()]) } else { None };
+                                out.push(Stmt::If { arms: vec![(self.tape.chance(1, 4), c, arm)], els }.into());
+                            }
+                        }
                         continue;
                     }
                     if self.cfg.interrupts && self.tape.chance(1, 2) { out.push(Stmt::Interrupt(Expr::LitI(self.tape.below(4) as i32)).into()); continue; }
